@@ -44,6 +44,7 @@ type H struct {
 	crashAt      int
 	acked        bool
 	crashCommits bool
+	failedFile   string
 }
 
 type Record struct {
@@ -461,6 +462,30 @@ func (h *H) CrashAtCommits() { h.crashCommits = true }
 // Natively Badger recycles items once its prefetch window (100 items) has been
 // exceeded: harnesses that use this store enough filler data.
 func (h *H) RecycleIteratorKeys() {}
+
+// FailWrites makes every write to a file whose path ends with suffix fail with "no space left on
+// device" (empty suffix: writes work again). Under gosx the file model refuses the writes;
+// natively the file is replaced by a symbolic link to /dev/full for the duration and put back.
+func (h *H) FailWrites(suffix string) {
+	if h.failedFile != "" {
+		_ = os.Remove(h.failedFile)
+		_ = os.Rename(h.failedFile+".verif-kept", h.failedFile)
+		h.failedFile = ""
+	}
+	if suffix == "" {
+		return
+	}
+	// natively the harness passes the full path; the file need not exist yet
+	if k := strings.LastIndex(suffix, "/"); k > 0 {
+		_ = os.MkdirAll(suffix[:k], 0o700)
+	}
+	if _, err := os.Stat(suffix); err == nil {
+		_ = os.Rename(suffix, suffix+".verif-kept")
+	}
+	if os.Symlink("/dev/full", suffix) == nil {
+		h.failedFile = suffix
+	}
+}
 
 // CrashAndRecover kills the process at the chosen boundary (child) or runs
 // the child and continues with the recovery part (parent).
